@@ -17,8 +17,8 @@ ASSUMPTIONS = [
     "the cap counts dictionary entries including base entries",
 ]
 MIN_NONTRIVIAL = {"quick": 80, "thorough": 800}
-REQUIRED = {"quick": {"rows_fit": 300, "rows_transform": 300, "hashed_rows": 60, "hash_injective_cases": 5},
-            "thorough": {"rows_fit": 3000, "rows_transform": 3000, "hashed_rows": 400, "hash_injective_cases": 40}}
+REQUIRED = {"quick": {"rows_fit": 300, "rows_transform": 300, "hashed_rows": 60, "hash_injective_cases": 5, "huge_parses": 2},
+            "thorough": {"rows_fit": 3000, "rows_transform": 3000, "hashed_rows": 400, "hash_injective_cases": 40, "huge_parses": 4}}
 
 
 def plan(tier, seed):
@@ -208,6 +208,15 @@ def check_case(ctx, c):
 
 def run(ctx):
     n = {"PY": ctx.pick(400, 3000), "JIT": ctx.pick(200, 1500), "BC": ctx.pick(60, 400)}[ctx.mode]
+    if ctx.mode == "JIT" and ctx.shard == 0:
+        # more distinct phrases than 2^16 (width of any narrow size counter) - default cap, a cap above it, and no cap hit
+        r = ctx.rng("huge")
+        alpha = [chr(0x400 + k) for k in range(3000)]
+        s_ = "".join(r.choice(alpha) for _ in range(250000))
+        for cap in ((1 << 16, 100000) if ctx.quick else (1 << 16, 100000, 65535, 1 << 20)):
+            c = {"S": [s_, "ab"], "T": ["ab", s_[:1000]], "max_dict_size": cap, "max_columns": None, "base": None, "random_state": 0}
+            ctx.count("huge_parses")
+            check_case(ctx, c)
     share = 0.4 if ctx.mode == "PY" else 0.12  # every hashed fit recompiles the parser in compiled modes
     for i in ctx.indices(n):
         c = gen_case(ctx.rng(i), share)
